@@ -283,6 +283,7 @@ func (c10) Case(c *core.Ctx) {
 	var sent interface{}
 	var newVal interface{}
 	sep := ":"
+	goTyped := false
 	form := r.Intn(6)
 	if form >= 4 && (strings.TrimSpace(k) != k || k == "") {
 		form = 0 // the string form of the new value does not define blanks around the key: use the map form
@@ -292,6 +293,11 @@ func (c10) Case(c *core.Ctx) {
 		sent = fmt.Sprintf("NEW#%d", c.Index)
 		newVal = map[string]interface{}{k: sent}
 		if form == 1 {
+			if r.Intn(2) == 0 {
+				goTyped = true
+				// Go-typed content must arrive as it is (no JSON round trip in between)
+				sent = map[string]interface{}{"NEW#": c.Index, "l": []interface{}{int64(7), uint8(1), "x"}, "m": mxj.Map{"n": float32(1.5)}}
+			}
 			newVal = mxj.Map{k: sent}
 		}
 	case 2:
@@ -357,6 +363,7 @@ func (c10) Case(c *core.Ctx) {
 		c.Count("ambient:decoder-options")
 	}
 	c.Eval()
+	failedCalls(c, 8)
 	cnt, err := mxj.Map(root).UpdateValuesForPath(newVal, pathStr, specs...)
 	got := map[string]bool{}
 	sentinelSlots(root, "", sentFp, got)
@@ -497,7 +504,7 @@ func (c10) Case(c *core.Ctx) {
 		}
 	}
 	// wrapper: j2x returns the encoding of the result
-	if r.Intn(6) == 0 && sep == ":" {
+	if r.Intn(6) == 0 && sep == ":" && !goTyped {
 		if jb, e := json.Marshal(before); e == nil {
 			nvw := newVal
 			if mv, ok := nvw.(mxj.Map); ok {
